@@ -4,6 +4,7 @@ from engine.api import Harness
 from engine.symlib import pick, site, reset, wit, note, untraced, reraise_internal, known
 from awesomeyaml.builder import Builder
 from awesomeyaml.config import Config
+from awesomeyaml.eval_context import EvalContext
 from awesomeyaml.nodes.node import ConfigNode
 from awesomeyaml.nodes.dict import ConfigDict
 
@@ -70,7 +71,7 @@ def c03_writers(split, pp1, p1, pp2, p2, pp3, p3, pp4, p4):
         b = Builder()
         b.add_multiple_sources(*docs, raw_yaml=True)
         root = b.build()
-        cfg = Config(root)
+        cfg = EvalContext().evaluate(root)      # low-level API: the deep copy made by Config() is C11/C19's subject
     except Exception as e:
         reraise_internal(e)
         note(error=repr(e))
